@@ -59,7 +59,7 @@ PROPS = {
     "C11": {
         "rules": [r_fmt.lexicon_rows_reader, r_feat.run, r_feat.rawinput, r_feat.csvdefault, r_misc.lexmap_shape, r_misc.homograph_accumulate, r_token.dispatch,
                   r_misc.parallel, r_char.packguard,
-                  kind_scope("dictionary::lexicon", "dictionary::unknown")],
+                  kind_scope("dictionary::lexicon", "dictionary::unknown", "dictionary::builder")],
         "explanation": "FMT(reader side): parse_csv stores CSV column 1, 2, 3 into left_id, "
                        "right_id, word_cost (column -> WordParam::new parameter -> field, KIND "
                        "checked); PARALLEL: Lexicon::from_entries builds map, params and features "
@@ -92,9 +92,9 @@ PROPS = {
                      "sign-parity and scale-source rules",
     },
     "C16": {
-        "rules": [r_fmt.run_c16, r_cost.run_c16, kind_scope("trainer::model", "raw_connector"), r_kind.bins("dictgen-bin", "compile-bin"), r_fmt.csvrow,
+        "rules": [r_fmt.run_c16, r_cost.run_c16, kind_scope("trainer::model", "raw_connector", "dual_connector"), r_scorer.scorer_build, r_kind.bins("dictgen-bin", "compile-bin"), r_fmt.csvrow,
                   r_scorer.reserved0, r_scorer.padval, r_scorer.rowrange, r_scorer.pruneset,
-                  r_misc.bigram_details_shape, r_scorer.rawbuild],
+                  r_misc.bigram_details_shape, r_scorer.rawbuild, r_scorer.templatesize],
         "explanation": "FMT: bigram.left/right lines are `id TAB csv` with 1-based ids (what "
                        "parse_features and the id == line+1 check require); bigram.cost lines are "
                        "`left-word feature / right-word feature TAB cost`, matching the order in "
@@ -205,7 +205,8 @@ PROPS = {
     "C01": {
         "rules": [r_token.access, r_token.tokiter, r_token.dispatch, r_cand.cand, r_cand.unkfall, r_viterbi.traceback,
                   r_reset.run_tokens, r_panic.run_narrow_dict, r_cand.unkcover, r_panic.run_tok,
-                  r_misc.spaceopt, r_char.run_key, r_cand.unkscan, r_panic.fieldwidth, kind_scope("dictionary::unknown", "token::")],
+                  r_misc.spaceopt, r_char.run_key, r_cand.unkscan, r_panic.fieldwidth, kind_scope("dictionary::unknown", "token::", "dictionary::lexicon", "dictionary::builder"),
+                  r_map.verifystrict],
         "explanation": "ACCESS: every Token accessor is a projection of the one stored (end, node) "
                        "pair and the sentence's offset table (ranges, surface, ids, costs, "
                        "feature); DISPATCH: each lexicon type is looked up in its own component "
